@@ -11,7 +11,7 @@ use pdf::primitive::{Date, Dictionary, PdfString, Primitive, TimeRel};
 use serde_json::{json, Value};
 
 const NPAGES: &[&str] = &["1-page", "0-pages", "2-pages", "3-pages"];
-const OPSETS: &[&str] = &["marker-only", "empty", "path+paint", "text", "colors+state", "shorthand-s-b", "shorthand-quote", "shorthand-TD", "shorthand-v-y", "marked-content", "inline-images"];
+const OPSETS: &[&str] = &["marker-only", "empty", "path+paint", "text", "colors+state", "shorthand-s-b", "shorthand-quote", "shorthand-TD", "shorthand-v-y", "marked-content", "inline-images", "text-that-names-keywords"];
 const BOX: &[&str] = &["letter", "absent", "non-integer", "negative-origin", "tiny-and-huge-coordinates"];
 const OPTBOX: &[&str] = &["absent", "present", "non-integer", "tiny-and-huge-coordinates"];
 const ROTATE: &[&str] = &["0", "90", "-90", "270"];
@@ -39,7 +39,16 @@ fn opset(i: usize, marker: usize) -> Vec<Op> {
         7 => ops.extend([Op::BeginText, Op::Leading { leading: 14.0 }, Op::MoveTextPosition { translation: pt(10.0, -14.0) }, Op::Leading { leading: 3.0 }, Op::MoveTextPosition { translation: pt(-3.0, 5.0) }, Op::EndText]),
         8 => ops.extend([get("MoveTo"), get("CurveTo:c1=current"), get("CurveTo:c2=p"), get("Rect"), Op::CurveTo { c1: pt(0.0, 1.0), c2: pt(2.0, 2.0), p: pt(3.0, 3.0) }, Op::Close, Op::CurveTo { c1: pt(1.0, 2.0), c2: pt(2.0, 2.0), p: pt(3.0, 3.0) }, Op::Stroke]),
         9 => ops.extend([get("BeginMarkedContent:props"), get("MarkedContentPoint:props"), get("XObject"), Op::EndMarkedContent]),
-        _ => ops.extend([get("InlineImage"), get("Save"), get("InlineImage:filters"), get("InlineImage:indexed"), get("InlineImage:built"), get("InlineImage:mask"), get("InlineImage:parms"), get("Restore")]),
+        10 => ops.extend([get("InlineImage"), get("Save"), get("InlineImage:filters"), get("InlineImage:indexed"), get("InlineImage:built"), get("InlineImage:mask"), get("InlineImage:parms"), get("Restore")]),
+        // the data of a content stream may contain any bytes, the words that delimit objects and streams included
+        _ => ops.extend([
+            Op::BeginText,
+            Op::TextDraw { text: PdfString::new(b"the word endstream, then endobj, xref, trailer and startxref"[..].into()) },
+            Op::TextDraw { text: PdfString::new(b"\nendstream\nendobj\n9 0 obj\n<< /Length 1 >>\nstream\n"[..].into()) },
+            Op::EndText,
+            Op::BeginMarkedContent { tag: "endstream".into(), properties: None },
+            Op::EndMarkedContent,
+        ]),
     }
     ops
 }
